@@ -141,3 +141,80 @@ def check_C07(ctx):
                 "data segment is emitted), every emitted type is used, and parse;gc;gc;emit yields the bytes of parse;gc;emit. Design: GcExact and SecondGcIsNoOp "
                 "on Walrus.tla.")
     gc_trace(ctx, "C07")
+
+
+# ------------------------------------------------------------------------------------------------
+def enum_custom_layouts(ctx):
+    out = os.path.join(ctx.work, "custom_layouts.ndjson")
+    r = tlc("Enum_Customs", workers=1, env={"OUTFILE": out}, cont=False, name="enum-customs")
+    ctx.notes["custom_layouts"] = sum(1 for _ in open(out))
+    return out
+
+
+def lifecycle(ctx, which, inputs, shards, with_procs=False):
+    """Record histories (parse ; emit|gc|reparse ...) and validate them against Lifecycle.tla on behalf of `which`."""
+    model_check(ctx, "Lifecycle", cfg="MC_Lifecycle", workers=4, label="design-lifecycle")
+    trace = os.path.join(ctx.work, "lifecycle.ndjson")
+    for f in os.listdir(ctx.work):
+        if f.startswith("lifecycle.ndjson") or f.startswith("digests."):
+            os.remove(os.path.join(ctx.work, f))
+    args = ["trace-lifecycle", "inputs=" + inputs, "seed=%d" % ctx.seed, "out=" + trace, "shards=%d" % shards]
+    if with_procs:
+        pf = []
+        for k in range(3):
+            f = os.path.join(ctx.work, "digests.%d" % k)
+            wv(["digests", "inputs=" + inputs, "seed=%d" % ctx.seed, "out=" + f], env={"RAYON_NUM_THREADS": str(1 + 5 * k)})
+            pf.append(f)
+        args.append("procs=" + ",".join(pf))
+        ctx.notes["separate_processes"] = 3
+    out = wv(args)
+    ctx.notes["harness"] = out.strip().splitlines()[-1]
+    os.environ["PROPERTY"] = which
+    cases = judge_shards(ctx, "Trace_Lifecycle", ["%s.%d" % (trace, k) for k in range(shards)], label="lifecycle",
+                         slim=lambda c: {"id": c["id"], "source": c["source"], "script": c["script"]})
+    for c in cases[:1] + cases[len(cases) // 2: len(cases) // 2 + 1] + cases[-1:]:
+        ctx.sample({"id": c["id"], "script": c["script"], "events": [dict(ev=e["ev"], held=e.get("held"), digest=e.get("digest")) for e in c["events"]]})
+    ctx.notes["events_validated"] = sum(len(c["events"]) for c in cases)
+    return cases
+
+
+def check_C08(ctx):
+    ctx.rule = ("design: Lifecycle.tla (EmitIsPure, RepeatedEmitsEqual, Fixpoint) exhaustively; implementation: histories parse;emit;emit;reparse;emit, "
+                "parse;gc;emit;emit and parse;emit;gc;emit;reparse;emit;emit on fixtures, custom-section layouts and generated modules under two switch vectors, "
+                "plus the digest of parse;emit from three further processes; every event carries the Module's observable state and the emitted bytes' digest and "
+                "is replayed against the actions of Lifecycle.tla. A case is one history.")
+    q = ctx.quick()
+    n = 250 if q else 8000
+    inputs = "fixtures,file:%s,gen:%d,gen:%d:big" % (DODRIO, n, n // 25)
+    lifecycle(ctx, "C08", inputs, 4 if q else 16, with_procs=True)
+    ctx.assumptions += ["'across processes' = three additional process launches with different thread counts"]
+
+
+def check_C12(ctx):
+    ctx.rule = ("design: Lifecycle.tla invariant CustomsSurvive; implementation: every placement of <= 2 unknown custom sections (two names so duplicates occur, empty and "
+                "non-empty payloads) before/between/after all 13 standard sections of a fixed module, enumerated by TLC (Enum_Customs.tla), plus fixtures and generated modules with "
+                "random custom sections, under histories {emit}, {gc,emit}, {emit,emit}, {emit,gc,emit,...}; the sequence of (name, payload digest) in every emitted binary and the "
+                "sections held by the Module after every call must equal the input's. A case is one history.")
+    q = ctx.quick()
+    n = 200 if q else 8000
+    inputs = "cust:%s,fixtures,gen:%d" % (enum_custom_layouts(ctx), n)
+    lifecycle(ctx, "C12", inputs, 6 if q else 16)
+    ctx.exhaustive = False
+
+
+def check_C14(ctx):
+    ctx.rule = ("design: Lifecycle.tla over all switch vectors (SwitchesExact, ProcessedByOnce, OnParseOnce); implementation: (a) each input run under ALL 2^5 vectors of "
+                "{names, producers, dwarf, preserve_code_transform, only_stable} - the whole finite switch space - and TLC compares the section inventories of every pair of vectors that "
+                "differ in one switch (Trace_Config.tla), checks the producers relation and the callback count; (b) recorded histories validated against Lifecycle.tla with the C14 "
+                "conjuncts (section presence, processed-by once per round trip, callback count). A case is one input under all vectors, or one history.")
+    q = ctx.quick()
+    n = 150 if q else 5000
+    inputs = "fixtures,gen:%d,gen:%d:stable" % (n, n // 3)
+    trace = os.path.join(ctx.work, "config.ndjson")
+    wv(["trace-config", "inputs=" + inputs, "seed=%d" % ctx.seed, "out=" + trace])
+    r, cases = judge_trace(ctx, "Trace_Config", trace, slim=lambda c: {"id": c["id"], "source": c["source"]})
+    ctx.notes["switch_vectors_per_input"] = max(len(c["runs"]) for c in cases)
+    ctx.sample({"id": cases[0]["id"], "runs": [{"flags": x["flags"], "outcome": x["outcome"], "sections": [s["name"] or s["id"] for s in x["sections"]]} for x in cases[0]["runs"][:3]]})
+    lifecycle(ctx, "C14", "fixtures,gen:%d" % n, 4 if q else 16)
+    ctx.exhaustive = True
+    ctx.notes["exhaustive_over"] = "the 2^5 switch vectors (per input); inputs are samples"
